@@ -21,6 +21,8 @@ package resolver
 
 import (
 	"bytes"
+	"context"
+	"errors"
 	"crypto/ed25519"
 	"encoding/base64"
 	"encoding/gob"
@@ -41,6 +43,8 @@ import (
 
 	"github.com/miekg/dns"
 	"github.com/semihalev/sdns/config"
+	"github.com/semihalev/sdns/middleware"
+	"github.com/semihalev/sdns/internal/dnsutil"
 	"github.com/semihalev/sdns/middleware/resolver/dnssec"
 	"github.com/semihalev/zlog/v2"
 )
@@ -806,6 +810,7 @@ func (h *vC09H) restartWith(cfg []vC09Sym, tr int, sr bool) {
 	h.newResolver(cfg, tr, sr)
 	h.steps = append(h.steps, fmt.Sprintf("ORestart %s %d %s %s", vC09KeysCoq(cfg), tr, vC09B(sr), h.cur.coq()))
 	h.desc = append(h.desc, fmt.Sprintf("restart cfg=%s tombstone_read=%d state_read_fails=%v -> %s", vC09KeysCoq(cfg), tr, sr, h.cur.short()))
+	h.probes(nil)
 }
 
 // advance the clock: every stored instant moves into the past
@@ -1067,6 +1072,189 @@ func (h *vC09H) run(fe vC09Fetch, fl vC09Faults) {
 	h.steps = append(h.steps, fmt.Sprintf("ORun %s %s (F %s %d %s %s) %s %d %d [%s]",
 		vC09Z(h.V), fetchCoq, vC09B(fl.sread), fl.tread, vC09B(fl.twrite), vC09B(fl.swrite), h.cur.coq(), out, nrev, strings.Join(rn, ";")))
 	h.desc = append(h.desc, fmt.Sprintf("run t=%d fetch=%s faults=%+v -> counter=%d revoked=%d renames=%v %s", h.V, fetchCoq, fl, out, nrev, h.renames, h.cur.short()))
+	h.probes(&fe)
+}
+
+// probe: what the live trust set means to VALIDATION (the consumers of Resolver.rootKeys). A root DNSKEY response is
+// (a) handed to Resolver.verifyRootKeys — the function that decides whether a root DNSKEY RRset is authentic, from
+// rootKeys alone — and (b) asked for through Resolver.Resolve with CD=0 against the scripted root: the call AutoTA
+// itself makes, minus the CD bit, i.e. what any client query for the root keys goes through (answer() gates on
+// hasTrustAnchors, verifyDNSSEC hands the response to verifyRootKeys). Observed classes: 0 accepted, 1 refused with
+// ErrTrustAnchorsUnavailable (fail closed), 2 refused otherwise, 3 not observed (loopback trouble). Nothing on disk is
+// touched; the anchor state is what the last AutoTA run / NewResolver left.
+func (h *vC09H) probe(fe vC09Fetch, why string) {
+	if h.budget > 0 || h.bad != "" || fe.drop || len(fe.keys) == 0 {
+		return // (an empty answer takes the NODATA route through authority(): not modelled)
+	}
+	ans, fcoq := h.buildAnswer(fe)
+	if h.bad != "" {
+		return
+	}
+	class := func(ok bool, err error) int {
+		switch {
+		case err == nil && ok:
+			return 0
+		case errors.Is(err, dnssec.ErrTrustAnchorsUnavailable):
+			return 1
+		default:
+			return 2
+		}
+	}
+	msg := new(dns.Msg)
+	msg.SetQuestion(".", dns.TypeDNSKEY)
+	msg.Response = true
+	msg.Answer = append([]dns.RR(nil), ans...)
+	ctx, cancel := context.WithTimeout(context.Background(), 5*time.Second)
+	wctx, _ := middleware.EnsureRecursionWork(ctx, h.r.workPolicy)
+	ok, err := h.r.verifyRootKeys(wctx, msg)
+	middleware.FinishRecursionWork(wctx)
+	cancel()
+	direct := class(ok, err)
+	derr := ""
+	if err != nil {
+		derr = err.Error()
+	}
+
+	h.srv.mu.Lock()
+	h.srv.answer = ans
+	h.srv.mode = 0
+	h.srv.hook = nil
+	h.srv.asked = 0
+	h.srv.mu.Unlock()
+	req := new(dns.Msg)
+	req.SetQuestion(".", dns.TypeDNSKEY)
+	req.SetEdns0(dnsutil.DefaultMsgSize, true)
+	ctx2, cancel2 := context.WithDeadline(context.Background(), time.Now().Add(h.r.netTimeout))
+	resp, rerr := h.r.Resolve(ctx2, req, h.r.rootServers, true, 5, 0, false, nil, true)
+	cancel2()
+	h.srv.mu.Lock()
+	asked := h.srv.asked
+	h.srv.mu.Unlock()
+	via := class(resp != nil, rerr)
+	verr := ""
+	ad := false
+	if rerr != nil {
+		verr = rerr.Error()
+		var ne net.Error
+		if errors.Is(rerr, context.DeadlineExceeded) || errors.Is(rerr, context.Canceled) || errors.As(rerr, &ne) {
+			via = 3
+		}
+	} else if resp != nil {
+		ad = resp.AuthenticatedData
+		if !ad {
+			via = 4 // answered, but not as authenticated data
+		}
+	}
+	if asked == 0 && via != 1 {
+		via = 3
+	}
+	rec := map[string]any{
+		"k":          "rootv-" + why,
+		"coq":        fmt.Sprintf("CRootV %s %s %s %d %d", h.tbl(), vC09KeysCoq(h.cur.live), fcoq, direct, via),
+		"nontrivial": true,
+		"desc": map[string]any{"index": h.idx, "what": "root DNSKEY response judged by verifyRootKeys and by Resolve(CD=0) under the current trust set",
+			"live": vC09KeysCoq(h.cur.live), "response": fcoq, "verifyRootKeys": direct, "verifyRootKeys_err": derr, "resolve": via, "resolve_err": verr, "ad": ad, "asked": asked},
+	}
+	b, _ := json.Marshal(rec)
+	h.windows = append(h.windows, string(b))
+}
+
+// probes after a run / restart: the response just served, and the published set signed by one or two keys picked among
+// everything this history knows (live, published, pending, withdrawn, tombstoned keys in plain and in revoked form)
+func (h *vC09H) probes(served *vC09Fetch) {
+	r := h.rng
+	p := 8
+	if h.idx < len(vC09Kinds) || len(h.cur.live) == 0 {
+		p = 3
+	}
+	// a live key filed under an unusual flags value (not 257): is it a validation key? let it sign alone
+	var odd []vC09Sym
+	for _, k := range h.cur.live {
+		if k.flags != 257 {
+			odd = append(odd, k)
+		}
+	}
+	if len(odd) > 0 {
+		p = 2
+	}
+	if r.Intn(p) != 0 {
+		return
+	}
+	if len(odd) > 0 && r.Intn(2) == 0 {
+		k := odd[r.Intn(len(odd))]
+		fe := vC09Fetch{keys: append([]vC09Sym(nil), h.pub...), sigs: []vC09Sig{{signer: k}}}
+		if h.pubIndex(k) < 0 {
+			fe.keys = append(fe.keys, k)
+		}
+		h.probe(fe, "oddflags")
+		return
+	}
+	if served != nil && !served.drop && r.Intn(3) == 0 {
+		h.probe(*served, "served")
+		return
+	}
+	var u []vC09Sym
+	seen := map[vC09Sym]bool{}
+	add := func(k vC09Sym) {
+		if !seen[k] {
+			seen[k] = true
+			u = append(u, k)
+		}
+	}
+	for _, k := range h.pub {
+		add(k)
+	}
+	for _, k := range h.cur.live {
+		add(k)
+	}
+	var tags []int
+	for t := range h.cur.state {
+		tags = append(tags, int(t))
+	}
+	sort.Ints(tags)
+	for _, t := range tags {
+		add(h.cur.state[uint16(t)].k)
+	}
+	var ms []int
+	for m := range h.cur.tomb {
+		ms = append(ms, m)
+	}
+	sort.Ints(ms)
+	for _, m := range ms {
+		add(vC09Sym{m, 257})
+		add(vC09Sym{m, 385})
+	}
+	for _, k := range h.removed {
+		add(k)
+	}
+	if len(u) == 0 {
+		return
+	}
+	fe := vC09Fetch{keys: append([]vC09Sym(nil), h.pub...)}
+	n := 1 + r.Intn(2)
+	for i := 0; i < n; i++ {
+		k := u[r.Intn(len(u))]
+		if k.flags&256 == 0 && r.Intn(2) == 0 {
+			k = u[r.Intn(len(u))]
+		}
+		in := false
+		for _, x := range fe.keys {
+			if x == k {
+				in = true
+			}
+		}
+		if !in && r.Intn(3) != 0 {
+			fe.keys = append(fe.keys, k)
+		}
+		fe.sigs = append(fe.sigs, vC09Sig{signer: k, bad: r.Intn(8) == 0})
+	}
+	if r.Intn(12) == 0 {
+		fe.sigs = nil
+	}
+	if len(fe.keys) == 0 {
+		return
+	}
+	h.probe(fe, "picked")
 }
 
 // the process died after k of the last run's replacements; restart with cfg
